@@ -26,7 +26,7 @@ type sink struct {
 	OtherV ssa.Value
 	Callee string // arg: callee name
 	ArgIdx int
-	Notes  []string // how the value got here (conv, arith, elem, len, call:f)
+	Notes  []string        // how the value got here (conv, arith, elem, len, call:f)
 	Seed   ssa.Instruction // the field read the value comes from
 }
 
